@@ -255,6 +255,18 @@ func (fv *FV) evalAppend(st *State, c *ast.CallExpr) Term {
 	fv.heapSet(st, key, newE)
 	fv.noteElemWrite(st, key, "(sbase "+s.S+")")
 	st.heap["alloc"] = Term{S: ite(inplace, alloc, sto(alloc, nb, "true")), Sort: arr(sInt, sBool)}
+	{
+		// consequences that hold in both regimes, stated uniformly so that most proofs need no case split on
+		// "in place or reallocated": the old elements are where they were, the new ones follow
+		fv.nfresh++
+		kq := fmt.Sprintf("k?%d", fv.nfresh)
+		newRead := sel(sel(newE, "(sbase "+res+")"), app("+", "(soff "+res+")", kq))
+		fv.define(st, fmt.Sprintf("(forall ((%s Int)) (! (=> (and (<= 0 %s) (< %s (slen %s))) (= %s (select (select %s (sbase %s)) (+ (soff %s) %s)))) :pattern (%s)))", kq, kq, kq, s.S, newRead, E, s.S, s.S, kq, newRead))
+		for i, v := range vals {
+			fv.define(st, eq(sel(sel(newE, "(sbase "+res+")"), app("+", "(soff "+res+")", "(slen "+s.S+")", fmt.Sprint(i))), v.S))
+		}
+		fv.define(st, and(eq("(slen "+res+")", app("+", "(slen "+s.S+")", fmt.Sprint(k))), app("<=", "(slen "+res+")", "(scap "+res+")"), app("<=", "0", "(soff "+res+")")))
+	}
 	if fv.usesBag() {
 		// multiset fact of append (part of the trusted base): the new slice holds the old elements plus the appended ones
 		pre := st.clone()
